@@ -89,6 +89,12 @@ def char_table() -> list[tuple[str, list[str], list[str]]]:
     add(" ", [" ", _u(" ")])
     add("￿", ["￿", _u("￿", True)])
     add("\U0001f600", ["\U0001f600", _u("\U0001f600"), _u("\U0001f600", True)])
+    # characters that Unicode normalisation would change: a combining mark (after "a": a decomposed letter), two
+    # singletons that normalise to another code point, a compatibility ideograph. A literal denotes what is written.
+    add("\u0301", ["\u0301", _u("\u0301")])
+    add("\u212b", ["\u212b", _u("\u212b", True)])
+    add("\u2126", ["\u2126"])
+    add("\uf900", ["\uf900", _u("\uf900")])
     return t
 
 
@@ -337,6 +343,12 @@ def int_spellings() -> list[tuple[int, str]]:
         for k in (0, 1, 2, 5, 16, 20, 30):
             for e in ("e", "E", "e+", "E+"):
                 out.append((m * 10**k, f"{m}{e}{k}"))
+    # long mantissas (1..45 digits, three digit patterns) with small exponents: the value is exact whatever the length
+    for nd in range(1, 46):
+        for digits in (("1234567890" * 5)[:nd], "9" * nd, "1" + "0" * (nd - 2) + "7" if nd > 1 else "7"):
+            for k in (0, 1, 3):
+                for sign in ("", "-"):
+                    out.append((int(sign + digits) * 10**k, f"{sign}{digits}e{k}"))
     return out
 
 
